@@ -224,15 +224,68 @@ func renameRound(pkgs []*packages.Package, overlay map[string][]byte) (map[strin
 	if len(renames) == 0 {
 		return nil, nil
 	}
-	byObj := map[types.Object]string{}
-	for _, r := range renames {
-		byObj[r.obj] = r.old
-	}
 	type edit struct {
 		lo, hi int
 		text   string
 	}
 	edits := map[string][]edit{}
+	// an unexported name that is now used from other packages cannot simply be
+	// put back. A struct type without methods gets a private copy under the old
+	// name in each package that uses it (privatise); the type checker then says
+	// whether values of it ever crossed the package boundary as that type.
+	// Anything else keeps its new name.
+	handled := map[token.Pos]bool{}
+	kept := renames[:0]
+	for _, r := range renames {
+		if ast.IsExported(r.old) || !ast.IsExported(r.obj.Name()) || r.obj.Pkg() == nil {
+			kept = append(kept, r)
+			continue
+		}
+		var users []*packages.Package
+		for _, pkg := range pkgs {
+			if !isServitorPath(pkg.PkgPath) || pkg.Types == r.obj.Pkg() || pkg.TypesInfo == nil {
+				continue
+			}
+			for _, o := range pkg.TypesInfo.Uses {
+				if v, ok := o.(*types.Var); ok {
+					o = v.Origin()
+				}
+				if o == r.obj {
+					users = append(users, pkg)
+					break
+				}
+			}
+		}
+		if len(users) == 0 {
+			kept = append(kept, r)
+			continue
+		}
+		tn, isType := r.obj.(*types.TypeName)
+		if !isType || renamePrivatiseOff {
+			log = append(log, fmt.Sprintf("not renamed back: %s is used from other packages under its exported name", r.obj.Name()))
+			continue
+		}
+		pedits, why := privatise(pkgs, overlay, tn, r.old, users, handled)
+		if why != "" {
+			log = append(log, fmt.Sprintf("not renamed back: %s is used from other packages (%s)", r.obj.Name(), why))
+			continue
+		}
+		for fn, es := range pedits {
+			for _, e := range es {
+				edits[fn] = append(edits[fn], edit{e.lo, e.hi, e.text})
+			}
+		}
+		log = append(log, fmt.Sprintf("private copy of type %s.%s under its old name %s for the packages that use it", r.obj.Pkg().Path(), r.obj.Name(), r.old))
+		kept = append(kept, r)
+	}
+	renames = kept
+	if len(renames) == 0 {
+		return nil, log
+	}
+	byObj := map[types.Object]string{}
+	for _, r := range renames {
+		byObj[r.obj] = r.old
+	}
 	for _, pkg := range pkgs {
 		if !isServitorPath(pkg.PkgPath) {
 			continue
@@ -259,7 +312,7 @@ func renameRound(pkgs []*packages.Package, overlay map[string][]byte) (map[strin
 					obj = v.Origin()
 				}
 				old, ok := byObj[obj]
-				if !ok {
+				if !ok || handled[id.Pos()] {
 					return true
 				}
 				edits[fname] = append(edits[fname], edit{pkg.Fset.Position(id.Pos()).Offset, pkg.Fset.Position(id.End()).Offset, old})
@@ -999,4 +1052,119 @@ func wrapperSwap(pkgs []*packages.Package, overlay map[string][]byte, inv, news 
 		return nil, nil
 	}
 	return out, log
+}
+
+// renamePrivatiseOff: set by Normalise when a rename round with a private type
+// copy did not type-check; the rename pass is then retried without it.
+var renamePrivatiseOff bool
+
+// privatise: edits that give every package in users its own copy of struct
+// type tn (of another package) under the name old, and make its uses there
+// (`p.T`) read `old`. Field names are left as they are: the rename pass puts
+// them back per package in its next round.
+func privatise(pkgs []*packages.Package, overlay map[string][]byte, tn *types.TypeName, old string, users []*packages.Package, handled map[token.Pos]bool) (map[string][]srcEdit, string) {
+	named, _ := tn.Type().(*types.Named)
+	if named == nil || named.NumMethods() > 0 || named.TypeParams().Len() > 0 {
+		return nil, "it has methods or type parameters"
+	}
+	var home *packages.Package
+	var spec *ast.TypeSpec
+	var homeFile *ast.File
+	for _, pkg := range pkgs {
+		if pkg.Types != tn.Pkg() {
+			continue
+		}
+		for _, f := range pkg.Syntax {
+			for _, d := range f.Decls {
+				gd, ok := d.(*ast.GenDecl)
+				if !ok || gd.Tok != token.TYPE {
+					continue
+				}
+				for _, sp := range gd.Specs {
+					if ts := sp.(*ast.TypeSpec); pkg.TypesInfo.Defs[ts.Name] == types.Object(tn) {
+						home, spec, homeFile = pkg, ts, f
+					}
+				}
+			}
+		}
+	}
+	if spec == nil {
+		return nil, "declaration not found"
+	}
+	st, ok := spec.Type.(*ast.StructType)
+	if !ok {
+		return nil, "not a struct type"
+	}
+	// field types: only predeclared names and qualified names
+	plain := true
+	for _, fl := range st.Fields.List {
+		if len(fl.Names) == 0 {
+			return nil, "it embeds a type"
+		}
+		ast.Inspect(fl.Type, func(n ast.Node) bool {
+			switch x := n.(type) {
+			case *ast.SelectorExpr:
+				return false
+			case *ast.Ident:
+				if o := home.TypesInfo.Uses[x]; o == nil || o.Pkg() != nil {
+					plain = false
+				}
+			case *ast.StructType, *ast.FuncType, *ast.InterfaceType:
+				plain = false
+			}
+			return true
+		})
+	}
+	if !plain {
+		return nil, "a field type is local to its package"
+	}
+	hsrc := readSource(home.Fset.File(homeFile.Pos()).Name(), overlay)
+	hoff := func(p token.Pos) int { return home.Fset.Position(p).Offset }
+	body := string(hsrc[hoff(spec.Type.Pos()):hoff(spec.Type.End())])
+	out := map[string][]srcEdit{}
+	for _, pkg := range users {
+		if pkg.Types.Scope().Lookup(old) != nil {
+			return nil, "the old name is taken in " + pkg.PkgPath
+		}
+		var first *ast.File
+		for _, f := range pkg.Syntax {
+			fname := pkg.Fset.File(f.Pos()).Name()
+			if strings.HasSuffix(fname, "_test.go") {
+				continue
+			}
+			bad := ""
+			ast.Inspect(f, func(n ast.Node) bool {
+				se, ok := n.(*ast.SelectorExpr)
+				if !ok {
+					if id, isId := n.(*ast.Ident); isId && pkg.TypesInfo.Uses[id] == types.Object(tn) && !handled[id.Pos()] {
+						bad = "used without qualifier (dot import)"
+					}
+					return true
+				}
+				if pkg.TypesInfo.Uses[se.Sel] != types.Object(tn) {
+					return true
+				}
+				handled[se.Sel.Pos()] = true
+				if first == nil {
+					if !portableFieldTypes(home, st, homeFile, f) {
+						bad = "a field type cannot be written in " + fname
+						return false
+					}
+					first = f
+				}
+				out[fname] = append(out[fname], srcEdit{pkg.Fset.Position(se.Pos()).Offset, pkg.Fset.Position(se.End()).Offset, old})
+				return false
+			})
+			if bad != "" {
+				return nil, bad
+			}
+		}
+		if first == nil {
+			continue
+		}
+		fname := pkg.Fset.File(first.Pos()).Name()
+		end := len(readSource(fname, overlay))
+		out[fname] = append(out[fname], srcEdit{end, end, "\n\ntype " + old + " " + body + "\n"})
+	}
+	return out, ""
 }
